@@ -5,8 +5,9 @@ as exact rationals evaluated at a rational point (s -> s0, symbols -> values).
 case: {"netlist": [lines], "s0": "p/q", "subs": {"sym": "p/q"}, "convention": "passive"|"hybrid"|None,
        "methods": ["DM","LU",...], "kinds": optional list of kinds to dump}
 result: {"kinds": {kind: {...}}} or {"error": "..."}.
-Values that are not rational at the point (complex ac kinds, noise) are
-reported as null and skipped by the caller.
+Values of the ac kinds (sn.kind is the angular frequency, not a string) are
+Gaussian rationals, reported as "p/q|r/s" (real|imaginary part); values that
+are neither (noise, irrational phases) are null and skipped by the caller.
 """
 import sys, json, warnings
 warnings.filterwarnings('ignore')
@@ -30,7 +31,11 @@ def rat(x, point):
             if sy.name in point:
                 sub[sy] = point[sy.name]
         x = x.subs(sub)
-        x = sp.nsimplify(x) if x.is_number and not x.is_Rational else x
+        if x.is_number and not x.is_Rational:
+            g = gauss(x)
+            if g is not None:
+                return g
+            x = sp.nsimplify(x)
         if not x.is_number:
             x = sp.cancel(sp.together(x))
         if x.is_Rational:
@@ -38,8 +43,25 @@ def rat(x, point):
         x = sp.simplify(x)
         if x.is_Rational:
             return '%d/%d' % (x.p, x.q)
+        return gauss(x)
     except Exception:
         return None
+    return None
+
+
+def gauss(x):
+    """'p/q|r/s' for a Gaussian rational, else None"""
+    if not x.is_number:
+        return None
+    re_, im_ = sp.expand(x, complex=True).as_real_imag()
+    if not re_.is_Rational:
+        re_ = sp.simplify(re_)
+    if not im_.is_Rational:
+        im_ = sp.simplify(im_)
+    if re_.is_Rational and im_.is_Rational:
+        if im_ == 0:
+            return '%d/%d' % (re_.p, re_.q)
+        return '%d/%d|%d/%d' % (re_.p, re_.q, im_.p, im_.q)
     return None
 
 
@@ -57,6 +79,7 @@ def rat_eps(x, point):
         x = sp.cancel(sp.together(x.subs(sub)))
         if x.is_Rational:
             return '%d/%d' % (x.p, x.q)
+        return gauss(x)
     except Exception:
         return None
     return None
@@ -79,7 +102,7 @@ TP_SRC_BY_CLASS = {}
 def dump_sub(sn, point, methods, want_solution=True):
     from lcapy.cexpr import ConstantDomainExpression
     mna = sn.mna
-    out = {'kind': str(sn.kind), 'node_list': list(sn.node_list), 'solver_method': str(sn.solver_method),
+    out = {'kind': str(sn.kind), 'ac': not isinstance(sn.kind, str), 'node_list': list(sn.node_list), 'solver_method': str(sn.solver_method),
            'node_index': {str(n): int(mna._node_index(n)) for n in sn.nodes},
            'unknown_branch_currents': list(mna.unknown_branch_currents),
            'extra_branch_currents': list(mna.extra_branch_currents)}
@@ -242,4 +265,5 @@ def main():
     json.dump(out, sys.stdout)
 
 
-main()
+if __name__ == "__main__":
+    main()
